@@ -17,9 +17,23 @@ def load_findings():
         return []
 
 
+def _claimed_level(pid):
+    """The level category MANIFEST.json claims for this property."""
+    try:
+        with open(os.path.join(ROOT, 'MANIFEST.json')) as f:
+            for c in json.load(f)['checks']:
+                if c['property_id'] == pid:
+                    return c['level_claimed']['category']
+    except (OSError, ValueError, KeyError):
+        pass
+    return 'model_checking'
+
+
 class Report:
 
-    def __init__(self, pid, tier, seed, level='model_checking'):
+    def __init__(self, pid, tier, seed, level=None):
+        if level is None:
+            level = _claimed_level(pid)
         self.pid, self.tier, self.seed, self.level = pid, tier, seed, level
         self.t0 = time.time()
         self.cov = dict(evaluations=0, states=0, transitions=0,
